@@ -240,6 +240,77 @@ def _model_job(job):
     return [(tag, mode, r.kind, str(r.detail)) for r in res]
 
 
+def string_shapes():
+    """Skeletons over String (and Int) symbols: decided with *concrete* models, every assignment of a small domain."""
+    STRING = ("STRING",)
+    st, tt = S("st", STRING), S("tt", STRING)
+    x = S("x", INT)
+
+    def L(vv, so):
+        return ("lit", vv, so)
+    sh = [("Equals", ("StrLength", ("StrConcat", st, tt)), ("Plus", ("StrLength", st), ("StrLength", tt))),
+          ("StrContains", ("StrConcat", st, L("a", STRING), tt), tt), ("StrPrefixOf", st, ("StrConcat", st, tt)), ("StrSuffixOf", tt, st),
+          ("Equals", ("StrIndexOf", st, tt, x), x), ("Equals", ("StrReplace", st, tt, L("zz", STRING)), st),
+          ("Equals", ("StrSubstr", st, x, L(1, INT)), ("StrCharAt", st, x)), ("Equals", ("StrToInt", st), x), ("Equals", ("IntToStr", x), st),
+          ("Equals", ("StrCharAt", ("StrConcat", st, tt), L(1, INT)), L("b", STRING)), ("LT", ("StrLength", st), x),
+          ("Equals", ("StrSubstr", ("StrConcat", st, tt), L(1, INT), x), tt),
+          # terms
+          ("StrConcat", st, L("-", STRING), tt), ("StrLength", ("StrReplace", st, L("a", STRING), tt)), ("StrIndexOf", st, L("b", STRING), L(0, INT))]
+    return [Shape(t) for t in sh]
+
+
+def _string_job(shape_t):
+    shape = Shape(shape_t)
+    doms = {("STRING",): ["", "a", "ab", "12"], INT: [-1, 0, 1, 2]}
+
+    def call(w, it, f):
+        import itertools as _it
+        syms = sorted(w.free_symbols(f), key=lambda n: w.npayload(n)[0])
+        out = []
+        for combo in _it.product(*[doms[w.nsort(sy)] for sy in syms]):
+            asg = dict((sy, w.str_const(v) if isinstance(v, str) else w.int_const(v)) for sy, v in zip(syms, combo))
+            model = it.instantiate(ClassRef(EAGER), [asg, w.env], {})
+            res = {}
+            for api in ("get_value", "py", "satisfies"):
+                if api == "satisfies" and w.nsort(f) != refsem.BOOL:
+                    continue
+                try:
+                    res[api] = ("ret", it.call(it.getattr(model, {"py": "get_py_value"}.get(api, api)), [f]))
+                except AbsRaise as ex:
+                    res[api] = ("raise", ex.cls_name)
+            out.append((dict((w.npayload(sy)[0], v) for sy, v in zip(syms, combo)), res))
+        return out
+
+    def post(w, f, out, facts):
+        n = 0
+        for vals, res in out:
+            env = dict(("sym:" + k, v) for k, v in vals.items())
+            try:
+                want = sc.nodeval(w, f, env)
+            except refsem.Undefined:
+                continue
+            except (refsem.NoSemantics, sc.Malformed) as e:
+                return proc.ProcResult(shape, "unsupported", str(e))
+            for api, (st_, val) in res.items():
+                if st_ == "raise":
+                    return proc.ProcResult(shape, "invalid", "%s raises %s under the model %s" % (api, val, vals))
+                if api == "get_value":
+                    if not w.is_node(val) or not w.opname(val).endswith("_CONSTANT"):
+                        return proc.ProcResult(shape, "invalid", "get_value returns the non-constant %s under the model %s"
+                                               % (sc.node_str(w, val) if w.is_node(val) else val, vals))
+                    got = sc.nodeval(w, val, {})
+                else:
+                    got = val
+                if got != want:
+                    return proc.ProcResult(shape, "invalid", "%s gives %r under the model %s; the formula denotes %r" % (api, got, vals, want))
+            n += 1
+        if not n:
+            return proc.ProcResult(shape, "vacuous", "no model evaluated")
+        return proc.ProcResult(shape, "valid", "%d concrete models" % n)
+    res = proc.run_proc(shape, call, post=post, services="full", max_paths=8, interp_kwargs={"max_steps": 4000000})
+    return [(repr(shape), "concrete", r.kind, str(r.detail)) for r in res]
+
+
 def _same_py(a, b):
     try:
         return a == b
@@ -258,9 +329,9 @@ def run(ctx):
         for bv in itertools.product((False, True), repeat=nb):
             jobs.append((sh.t, "full", bv))
         jobs.append((sh.t, "empty", ()))
-    for res in parallel_map(_model_job, jobs):
+    for res in parallel_map(_model_job, jobs) + parallel_map(_string_job, [sh.t for sh in string_shapes()]):
         for shape, mode, kind, detail in res:
-            what = "total model" if mode == "full" else "empty model (completion)"
+            what = {"full": "total model", "concrete": "concrete models over small domains"}.get(mode, "empty model (completion)")
             if kind == "valid":
                 rs.ok({"skeleton": shape, "model": what, "checked": detail})
             elif kind == "invalid":
